@@ -6,13 +6,14 @@
 From Coq Require Import String List ZArith Reals QArith Qreals.
 From QV Require Import AutoQ.Search AutoQ.Forgiving AutoQ.Size.
 Import ListNotations.
+Open Scope string_scope.
 
 (* one call of _get_quantizer: the quantizer handed out comes from the configuration of a role that
    uses the slot and obeys the limit slot of the pattern / class the layer resolves to *)
 Theorem C20_quantizer_within_limit :
   forall lims cfg rematch (ch : chooser) g head ln cn il q b g',
   groups_ok lims cfg g -> get_quantizer lims cfg rematch ch g head ln cn il = (RSome q b, g') ->
-  slot_ok lims cfg (resolved lims rematch ln cn) (field_index (field_of_head il head)) q b /\ groups_ok lims cfg g'.
+  slot_ok lims cfg (resolved lims rematch ln cn) (field_index (role_field il ln head)) q b /\ groups_ok lims cfg g'.
 Proof. exact get_quantizer_within_limit. Qed.
 Print Assumptions C20_quantizer_within_limit.
 
@@ -29,10 +30,22 @@ Theorem C20_class_limit_per_role :
   forall lims cfg rematch (ch : chooser) g head ln cn il q b g',
   first_match rematch lims ln = None ->
   get_quantizer lims cfg rematch ch g head ln cn il = (RSome q b, g') ->
-  exists slots lm, assoc cn lims = Some slots /\ slot slots (field_index (field_of_head il head)) = Some lm /\
-    from_field cfg (field_of_head il head) q b /\ obeys lm q b /\ g' = g.
+  exists slots lm, assoc cn lims = Some slots /\ slot slots (field_index (role_field il ln head)) = Some lm /\
+    from_field cfg (role_field il ln head) q b /\ obeys lm q b /\ g' = g.
 Proof. exact get_quantizer_class_limit_per_role. Qed.
 Print Assumptions C20_class_limit_per_role.
+
+(* the tensor role is read from the suffix appended by quantize_model, whatever the layer is called *)
+Theorem C20_role_independent_of_layer_name : forall n : string,
+  role_field false n (n ++ "_kernel") = FKernel /\
+  role_field false n (n ++ "_bias") = FBias /\
+  role_field false n (n ++ "_activation") = FAct /\
+  role_field false n (n ++ "_recurrent_activation") = FRecAct /\
+  role_field true n (n ++ "_activation") = FLinear /\
+  role_field false n (n ++ "_pointwise_kernel") = FKernel /\
+  role_field false n (n ++ "_recurrent_kernel") = FKernel.
+Proof. exact role_independent_of_layer_name. Qed.
+Print Assumptions C20_role_independent_of_layer_name.
 
 (* layers outside the limits stay unquantized *)
 Theorem C20_layer_outside_limits_gets_no_quantizer :
@@ -54,7 +67,7 @@ Print Assumptions C20_layer_indexes_respected.
 Theorem C20_group_choice_shared :
   forall lims cfg rematch (ch : chooser) g head ln cn il p q b,
   first_match rematch lims ln = Some p -> assoc p lims <> None ->
-  glookup g p (field_index (field_of_head il head)) = Some (q, b) ->
+  glookup g p (field_index (role_field il ln head)) = Some (q, b) ->
   get_quantizer lims cfg rematch ch g head ln cn il = (RSome q b, g).
 Proof. exact get_quantizer_group_shared. Qed.
 Print Assumptions C20_group_choice_shared.
@@ -62,7 +75,7 @@ Theorem C20_group_choice_recorded :
   forall lims cfg rematch (ch : chooser) g head ln cn il p q b g',
   first_match rematch lims ln = Some p ->
   get_quantizer lims cfg rematch ch g head ln cn il = (RSome q b, g') ->
-  glookup g' p (field_index (field_of_head il head)) = Some (q, b).
+  glookup g' p (field_index (role_field il ln head)) = Some (q, b).
 Proof. exact get_quantizer_group_recorded. Qed.
 Print Assumptions C20_group_choice_recorded.
 
